@@ -3,6 +3,12 @@ From Coq Require Import String.
 From Coq Require Import List NArith ZArith Bool.
 From VF Require Import Base.Sx Tftp.Transfer Tftp.Run Tftp.Monitor Tftp.Entries.
 Import ListNotations.
+(* a datagram from a foreign address must not affect the timing of the transfer: when the trace
+   contains one, a deviation of the time-outs from the deadlines is attributed to it *)
+Definition has_foreign (l : list tr) : bool :=
+  existsb (fun e => match e with TRecv _ a _ => negb (a =? client)%N | _ => false end) l.
 Definition holds (c : tcase) (l : list tr) : list string :=
-  filter (has_tag ["C09:"%string]) (monitor c l).
+  filter (has_tag (if has_foreign l
+                   then ["C09:"; "C02:timeout_at_deadline"; "C02:delivery_after_deadline"]
+                   else ["C09:"])%string) (monitor c l).
 Definition entry := tftp_entry holds proj_timing.
